@@ -594,6 +594,11 @@ fn run_one(o: &mut Out, e: &Value) {
         // all recorded inputs are values of F, so this product is exact
         F::of(s as f64 * m * 2f64.powi(13 * q))
     }
+    if e["m"].as_str().unwrap_or("").starts_with("get_hue") {
+        let mut r = Sm64::new(1);
+        if e["t"].as_str().unwrap() == "f32" { get_hue_events32(o, &mut r, 0) } else { get_hue_events64(o, &mut r, 0) }
+        return;
+    }
     fn go<F: Fl, H: HueApi<F>>(o: &mut Out, e: &Value) {
         let ins: Vec<F> = e["in"].as_array().unwrap().iter().map(|j| val::<F>(j)).collect();
         let m = e["m"].as_str().unwrap_or("");
@@ -615,6 +620,59 @@ fn run_one(o: &mut Out, e: &Value) {
     if e["t"].as_str().unwrap() == "f32" { pick!(f32) } else { pick!(f64) }
 }
 
+// ------------------------------------------------------------------------------------------ GetHue
+// The hue of a colour as the library reports it (GetHue): for the rectangular types it is built from the colour's own
+// cartesian pair (a*, b*), (u*, v*), Oklab (a, b), CAM16-UCS (a', b') - recorded as a "cartesian" event, mode "get_hue",
+// and judged like from_cartesian; for the polar types it is the stored hue - recorded as an "eq" event with n = 1, mode
+// "get_hue" (the reported angle must not differ from the stored one by more than rounding modulo 360).  The same through
+// the Alpha wrapper.
+macro_rules! get_hue_events {
+    ($fname:ident, $F:ty) => {
+        fn $fname(o: &mut Out, rng: &mut Sm64, n: usize) {
+            use palette::{GetHue, Hsl, Hsv, Lab, Laba, Lch, Lcha, Luv, Oklab, Oklch, Alpha};
+            use palette::cam16::Cam16UcsJmh;
+            use palette::white_point::D65;
+            type F = $F;
+            let tn = <F as Ex>::NAME;
+            let mut pairs: Vec<(F, F)> = vec![(1.0, 0.0), (0.0, 1.0), (-1.0, 0.0), (0.0, -1.0), (3.0, 4.0), (-5.0, 12.0), (1e-6, -1e-6), (100.0, -0.001)];
+            for _ in 0..n { pairs.push((rng.range(-120.0, 120.0) as F, rng.range(-120.0, 120.0) as F)); }
+            for (i, &(a, b)) in pairs.iter().enumerate() {
+                macro_rules! rect { ($ty:expr, $mk:expr, $mka:expr) => {{
+                    let r = catch(|| { let h = $mk.get_hue(); let (a2, b2) = h.into_cartesian(); (h.into_inner(), a2, b2) });
+                    o.ev("cartesian", $ty, tn, "get_hue", nums(&[a, b]), r.map(|(h, a2, b2)| (nums(&[h, a2, b2]), -1)), -1);
+                    let r = catch(|| { let h = $mka.get_hue(); let (a2, b2) = h.into_cartesian(); (h.into_inner(), a2, b2) });
+                    o.ev("cartesian", $ty, tn, "get_hue_alpha", nums(&[a, b]), r.map(|(h, a2, b2)| (nums(&[h, a2, b2]), -1)), -1);
+                }}; }
+                match i % 4 {
+                    0 => rect!("LabHue", Lab::<D65, F>::new(50.0, a, b), Laba::<D65, F>::new(50.0, a, b, 0.5)),
+                    1 => rect!("LuvHue", Luv::<D65, F>::new(50.0, a, b), Alpha { color: Luv::<D65, F>::new(50.0, a, b), alpha: 0.5 as F }),
+                    2 => rect!("OklabHue", Oklab::<F>::new(0.5, a / 300.0, b / 300.0), Alpha { color: Oklab::<F>::new(0.5, a / 300.0, b / 300.0), alpha: 0.5 as F }),
+                    _ => rect!("LabHue", Lab::<D65, F>::new(0.0, a / 3.0, b / 3.0), Laba::<D65, F>::new(100.0, a / 3.0, b / 3.0, 1.0)),
+                }
+            }
+            // the cartesian inputs of the two scaled types are the scaled values: log what was really given
+            let hs: [F; 10] = [0.0, 37.5, 180.0, -180.0, 359.5, 360.0, 725.25, -1000.5, 90.0, 270.0];
+            for (i, &h) in hs.iter().enumerate() {
+                macro_rules! polar { ($ty:expr, $mk:expr, $mka:expr) => {{
+                    let r = catch(|| $mk.get_hue().into_inner());
+                    o.ev("eq", $ty, tn, "get_hue", match &r { Ok(g) => nums(&[h, *g]), Err(_) => nums(&[h, h]) }, r.map(|_| (vec![], 1)), -1);
+                    let r = catch(|| $mka.get_hue().into_inner());
+                    o.ev("eq", $ty, tn, "get_hue_alpha", match &r { Ok(g) => nums(&[h, *g]), Err(_) => nums(&[h, h]) }, r.map(|_| (vec![], 1)), -1);
+                }}; }
+                match i % 5 {
+                    0 => polar!("LabHue", Lch::<D65, F>::new(50.0, 20.0, h), Lcha::<D65, F>::new(50.0, 20.0, h, 0.5)),
+                    1 => polar!("OklabHue", Oklch::<F>::new(0.5, 0.1, h), Alpha { color: Oklch::<F>::new(0.5, 0.1, h), alpha: 0.5 as F }),
+                    2 => polar!("RgbHue", Hsv::<palette::encoding::Srgb, F>::new(h, 0.5, 0.5), Alpha { color: Hsv::<palette::encoding::Srgb, F>::new(h, 0.5, 0.5), alpha: 0.5 as F }),
+                    3 => polar!("RgbHue", Hsl::<palette::encoding::Srgb, F>::new(h, 0.5, 0.5), Alpha { color: Hsl::<palette::encoding::Srgb, F>::new(h, 0.5, 0.5), alpha: 0.5 as F }),
+                    _ => polar!("Cam16Hue", Cam16UcsJmh::<F>::new(50.0, 20.0, h), Alpha { color: Cam16UcsJmh::<F>::new(50.0, 20.0, h), alpha: 0.5 as F }),
+                }
+            }
+        }
+    };
+}
+get_hue_events!(get_hue_events32, f32);
+get_hue_events!(get_hue_events64, f64);
+
 fn main() {
     let out = arg_or("--out", "-");
     let mut o = Out { rec: Rec::create(&out), counts: BTreeMap::new(), panics: 0 };
@@ -635,6 +693,9 @@ fn main() {
     };
     drive::<f32>(&mut o, &p32, seed);
     drive::<f64>(&mut o, &p64, seed);
+    let mut grng = Sm64::new(seed ^ 0x6e7);
+    get_hue_events32(&mut o, &mut grng, 40 * p32.other_scale);
+    get_hue_events64(&mut o, &mut grng, 40 * p64.other_scale);
     let mut sweep = (0u64, 0u64);
     if p32.sweep { sweep = sweep_f32(&mut o, seed); }
     let counts = o.counts.clone();
